@@ -17,7 +17,7 @@ def sh(cmd, **kw):
                           universal_newlines=True, **kw)
 
 
-def run_seed(seed, all_checks=False, tier="quick"):
+def run_seed(seed, all_checks=False, tier="quick", only=None):
     seed = os.path.abspath(seed)
     name = os.path.basename(seed.rstrip("/"))
     meta = {}
@@ -54,6 +54,8 @@ def run_seed(seed, all_checks=False, tier="quick"):
             res["demo_fails_with_patch"] = r.returncode != 0
             res["demo_tail"] = r.stdout.strip().splitlines()[-1][:200] if r.stdout.strip() else ""
         checks = ALL if all_checks else meta.get("checks", [meta.get("property")] if meta.get("property") else ALL)
+        if only:
+            checks = only
         env = dict(os.environ, VERIF_REPO=wt, VERIF_OUT=out, VERIF_TIER=tier)
         det = {}
         for pid in checks:
@@ -87,11 +89,15 @@ def main():
     tier = "quick"
     if "--tier" in args:
         tier = args[args.index("--tier") + 1]
-    seeds = [a for a in args if not a.startswith("--") and a != tier]
+    only = None
+    if "--checks" in args:          # --checks C01,C03: just these (result.json is then left as it is)
+        only = args[args.index("--checks") + 1].split(",")
+    seeds = [a for a in args if not a.startswith("--") and a != tier and a.split(",") != only]
     rc = 0
     for s in seeds:
-        res = run_seed(s, all_checks, tier)
-        json.dump(res, open(os.path.join(s, "result.json"), "w"), indent=1)
+        res = run_seed(s, all_checks, tier, only)
+        if not only:
+            json.dump(res, open(os.path.join(s, "result.json"), "w"), indent=1)
         print("%-28s baseline=%s demo_fails=%s detected_by=%s%s%s" % (
             res["seed"], res.get("baseline_ok"), res.get("demo_fails_with_patch"), ",".join(res.get("detected_by", [])) or "-",
             (" HARNESS-ERRORS=" + ",".join(res["harness_errors"])) if res.get("harness_errors") else "",
